@@ -181,6 +181,7 @@ func (m *meta) sample(s string) {
 		m.Samples = append(m.Samples, s)
 	}
 }
+
 var violMu sync.Mutex
 
 func (m *meta) violate(prop, what, replay string) {
